@@ -22,7 +22,6 @@ func VerifCellDump(cb *CellBuffer) string {
 	return sb.String()
 }
 
-
 // VerifSimDump renders the private logical-buffer state of a SimulationScreen.
 func VerifSimDump(s Screen) string {
 	ss, ok := s.(*simscreen)
